@@ -474,3 +474,25 @@ replace verif/support => %s
 	}
 	return nil
 }
+
+// CollectStyles records the style tags of every declaration in Meta["styles"]
+// (key: <import path>.<Name>), used by oracles for their coverage histograms.
+func (p *Program) CollectStyles() {
+	styles := map[string]string{}
+	for _, pkg := range p.Pkgs() {
+		for _, d := range pkg.Decls {
+			var tags []string
+			for t := range d.Tags {
+				tags = append(tags, t)
+			}
+			sort.Strings(tags)
+			if len(tags) > 0 {
+				styles[pkg.Path+"."+d.Name] = strings.Join(tags, "+")
+			}
+		}
+	}
+	if p.Meta == nil {
+		p.Meta = map[string]any{}
+	}
+	p.Meta["styles"] = styles
+}
